@@ -158,6 +158,20 @@ def dealiased(fn: FunctionInfo, site: ast.AST, rtext: str) -> bool:
 
 
 def isinstance_narrowed(fn: FunctionInfo, site: ast.AST, rtext: str) -> bool:
+    # short circuit inside one expression: `isinstance(R, T) and R.attr ...`
+    from sa.srcmodel import ancestors
+
+    child: ast.AST = site
+    for anc in ancestors(site):
+        if isinstance(anc, ast.BoolOp) and isinstance(anc.op, ast.And):
+            for v in anc.values:
+                if v is child or any(x is child for x in ast.walk(v)):
+                    break
+                if isinstance(v, ast.Call) and dotted(v.func) == "isinstance" and len(v.args) == 2 and unparse(v.args[0]) == rtext and "Alias" not in unparse(v.args[1]):
+                    return True
+        if isinstance(anc, (ast.stmt, ast.Lambda, ast.ListComp, ast.SetComp, ast.DictComp, ast.GeneratorExp)):
+            break
+        child = anc
     cfg = cfg_of(fn)
     nodes = node_index(fn).get(id(site), [])
     for n in nodes:
